@@ -27,21 +27,33 @@ import extract_c17
 import pixels_common as pc
 from core import err_class
 
+SAVE_TOKEN = "save"
 DOC_MODES = ["L", "LA", "RGB", "RGBA", "CMYK", "CMYKA"]
 NCOLOR = {"GRAYSCALE": 1, "RGB": 3, "CMYK": 4}
 FIXTURES_QUICK = ["1layer.psd", "2layers.psd", "group.psd", "16bit5x5.psd", "32bit5x5.psd", "transparentbg-gimp.psd",
                   "opacity-fill.psd", "mask_parameters.psd", "clipping-mask2.psd", "1layer.psb", "masks3.psd",
                   "vector-mask2.psd"]
 STRUCT_OPS = ["append", "insert", "pop-append", "rotate", "remove", "delitem", "setitem", "clear", "moveUp", "moveDown",
-              "moveToGroup", "groupLayers", "deleteLayer", "newGroupInParent", "extend"]
-QUIET_OPS = ["rename", "setVisible", "setOpacity", "setBlendMode", "setOffset", "setCompatibilityMode", "readTopil", "readNumpy",
+              "moveToGroup", "groupLayers", "deleteLayer", "newGroupInParent", "extend",
+              # clip-relevant: a clipping layer over whatever lies below it; a base taken away from under its run and put back;
+              # a clipping layer sent to the bottom of its list and back; everything wrapped in one group (nesting)
+              "appendClip", "baseUpDown", "clipDownUp", "groupAll"]
+QUIET_OPS = ["rename", "setVisible", "setOpacity", "setBlendMode", "setOffset", "setClipping", "setCompatibilityMode", "readTopil", "readNumpy",
              "readComposite", "readForcedComposite", "readIterate", "readBbox", "readSave"]
-OP_MODEL_NAME = {"pop-append": "pop,append", "rotate": "pop,insert", "hideAll": "setVisible"}
+OP_MODEL_NAME = {"pop-append": "pop,append", "rotate": "pop,insert", "hideAll": "setVisible", "appendClip": "append,setClipping",
+                 "baseUpDown": "moveUp,moveDown", "groupAll": "groupLayers"}
+# histories that pass through clip-relevant intermediate states (a clip run temporarily WITHOUT its base) and end in a well-formed
+# run: the file written holds base + clipping layer, and its merged image must show exactly that
+CLIP_HISTORIES = [["appendClip"], ["appendClip", "moveUp", "moveDown"], ["appendClip", "baseUpDown"], ["appendClip", "delitem", "insert"],
+                  ["appendClip", "setClipping", "setClipping"], ["appendClip", "clipDownUp"], ["appendClip", "groupAll", "baseUpDown"],
+                  ["appendClip", "groupAll", "clipDownUp"], ["appendClip", "rotate", "pop-append", "baseUpDown"],
+                  ["appendClip", "setClipping", SAVE_TOKEN, "setClipping"], ["appendClip", "baseUpDown", SAVE_TOKEN, "setVisible"]]
+CLIP_HISTORIES_UNSAVED = [["appendClip", "insert"], ["appendClip", "insert", "baseUpDown"], ["append", "appendClip", "delitem", "insert"]]
 # the token "save" inside a history is a CHECKED save: the file it writes is examined like the final one
 # (every history ends with an implicit checked save). For the model it is `readSave`: not structural, and
 # it does not reset the flag.
 SAVE = "save"
-ATTR_OPS = ["setVisible", "setOpacity", "setOffset", "setBlendMode", "rename"]
+ATTR_OPS = ["setVisible", "setOpacity", "setOffset", "setBlendMode", "rename", "setClipping"]
 VISIBLE_ATTR_OPS = ["setVisible", "setOpacity", "setOffset", "hideAll"]
 # what the PROPERTY counts as an edit of the layer structure (model op names) - the harness's own
 # classification of the public calls, independent of the flag the implementation keeps
@@ -207,6 +219,12 @@ def apply_op(psd, op, rng, img_seed):
         psd.extend([PixelLayer.frompil(im, psd, "ext", 0, 0)])
     elif op == "newGroupInParent":
         Group.new("g", parent=psd)
+    elif op == "appendClip":
+        # a clipping layer as large as the canvas: it sticks out of whatever base it gets
+        im = pc.make_image("RGBA", psd.width, psd.height, img_seed)
+        lay = PixelLayer.frompil(im, psd, "clip", 0, 0)
+        psd.append(lay)
+        lay.clipping_layer = True
     elif op == "setCompatibilityMode":
         # a rendering configuration of the object in memory: nothing of it is stored, no layer is added / removed / reordered
         from psd_tools.constants import CompatibilityMode
@@ -238,6 +256,26 @@ def apply_op(psd, op, rng, img_seed):
         Group.group_layers([layers[-1]], "grouped", parent=psd)
     elif op == "deleteLayer":
         layers[-1].delete_layer()
+    elif op == "setClipping":
+        layers[-1].clipping_layer = not layers[-1].clipping_layer
+    elif op == "baseUpDown":
+        # the base of a clip run (anywhere in the tree) is moved above its run and back: the run is base-less in between
+        bases = [l for l in _walk(psd) if not l.clipping_layer and _above_is_clip(l)]
+        if not bases:
+            return None
+        bases[0].move_up()
+        bases[0].move_down()
+    elif op == "clipDownUp":
+        # a clipping layer (anywhere in the tree) goes to the bottom of its list - nothing to clip to - and back
+        clips = [l for l in _walk(psd) if l.clipping_layer and list(l.parent).index(l) > 0]
+        if not clips:
+            return None
+        k = list(clips[0].parent).index(clips[0])
+        clips[0].move_down(k)
+        clips[0].move_up(k)
+        return "moveDown,moveUp"
+    elif op == "groupAll":
+        Group.group_layers(layers, "all", parent=psd)
     elif op == "rename":
         layers[-1].name = "renamed"
     elif op == "setVisible":
@@ -274,6 +312,19 @@ def apply_op(psd, op, rng, img_seed):
     else:
         raise ValueError(op)
     return OP_MODEL_NAME.get(op, op)
+
+
+def _walk(g):
+    for l in g:
+        yield l
+        if l.is_group():
+            yield from _walk(l)
+
+
+def _above_is_clip(layer):
+    sib = list(layer.parent)
+    k = [i for i, x in enumerate(sib) if x is layer][0]
+    return k + 1 < len(sib) and bool(sib[k + 1].clipping_layer)
 
 
 def quantise(x, depth):
@@ -506,6 +557,9 @@ def check_save(ctx, label, psd, names, case, original_section, nsave, nocomp=Fal
                      float(np.abs(f1 - f2).max()), "same rendering")
             return "stale render state", True
     n = NCOLOR[cm]
+    r_planes = check_extra_planes(ctx, case, tag, later, nth, n, nch, depth, w, h, mt, ids, lc, old_ok, got[1], alpha2)
+    if r_planes:
+        result = r_planes
     flat_comp = color2 * alpha2 + (1.0 - alpha2)
     transparent = nch > n and bool(has_transparency(p2))
     semi = bool(((alpha2 > 0.02) & (alpha2 < 0.98)).any())
@@ -564,6 +618,98 @@ def check_save(ctx, label, psd, names, case, original_section, nsave, nocomp=Fal
                      "topil() of the reopened file differs from composite(force=True) of its layers" + nth, case, d, "<= 2/255")
             result = "differs from composite"
     return result, True
+
+
+def transparency_plane(n, nch, mt, ids, lc):
+    """Which plane of the merged image is its transparency, by the published layout (stated here independently of the library's
+    predicates): there is one when the header has planes beyond the colour planes AND (a merged-transparency block says so, or there
+    are no layers and ALPHA_IDENTIFIERS does not list positive identifiers only); it is the plane ALPHA_IDENTIFIERS marks with 0 -
+    the identifiers describe the LAST len(ids) planes - or the last plane when none is marked. -> index | None"""
+    if nch <= n:
+        return None
+    if not mt and ((ids and all(x > 0 for x in ids)) or lc > 0):
+        return None
+    if ids and 0 in ids:
+        return max(nch - len(ids) + ids.index(0), n)
+    return nch - 1
+
+
+def ids_class(n, nch, ids):
+    k = nch - n
+    if not ids:
+        return f"{k}-extra/no-identifiers"
+    if 0 not in ids:
+        return f"{k}-extra/transparency-unlisted"
+    p = ids.index(0)
+    return f"{k}-extra/transparency-" + ("only" if len(ids) == 1 else "first" if p == 0 else "last" if p == len(ids) - 1 else "middle")
+
+
+def check_extra_planes(ctx, case, tag, later, nth, n, nch, depth, w, h, mt, ids, lc, old_ok, got, alpha2):
+    """every plane beyond the colour planes against its source: the transparency plane (transparency_plane) = the alpha of the
+    composite of the REOPENED layers; every other extra plane (saved selections, spot channels) = what it was, byte for byte"""
+    if nch <= n or len(got) != nch:
+        return None
+    tp = transparency_plane(n, nch, mt, ids, lc)
+    cls = ids_class(n, nch, ids) + ("/merged-transparency-block" if mt else "")
+    ctx.hist("extra_planes", f"{cls}/{'transparency plane ' + str(tp - n) if tp is not None else 'no transparency plane'}")
+    res = None
+    old = old_ok[1] if old_ok[0] == "ok" and len(old_ok[1]) == nch else None
+    for k in range(n, nch):
+        if k == tp:
+            al = to_float(got[k], depth, h, w)
+            d = float(np.abs(al - alpha2[:, :, 0]).max())
+            if not d <= 1.0 / 255 + 1e-6:
+                ctx.fail(f"C17/merged-planes/{tag}/{cls}/transparency-plane-is-not-the-composite-alpha{later}",
+                         f"plane {k} of the merged image is the transparency (ALPHA_IDENTIFIERS {ids or 'absent'}) but does not hold the alpha of "
+                         "the composite of the saved layers" + nth, case, {"plane": k, "max_difference": d}, "<= 1/255")
+                res = "transparency plane differs"
+        elif old is not None and got[k] != old[k]:
+            ctx.fail(f"C17/merged-planes/{tag}/{cls}/extra-channel-not-preserved{later}",
+                     f"plane {k} of the merged image is not derived from the layers (ALPHA_IDENTIFIERS {ids or 'absent'}: a saved selection / "
+                     "spot channel) and was changed by save()" + nth, case,
+                     {"plane": k, "bytes_differing": sum(a != b for a, b in zip(got[k], old[k]))}, "byte-identical to the plane before the save")
+            res = "extra channel changed"
+    return res
+
+
+def make_channel_doc(mode, depth, comp, size, extra, ids, mtrn, seed):
+    """a document with `extra` planes beyond the colour planes (random content), ALPHA_IDENTIFIERS `ids` (None: no resource) and
+    optionally the merged-transparency block, one imported layer; saved and reopened -> (document, bytes)"""
+    from psd_tools import PSDImage
+    from psd_tools.api.layers import PixelLayer
+    from psd_tools.constants import ColorMode, Resource
+    from psd_tools.psd import PSD, FileHeader, ImageData, ImageResources
+    from psd_tools.psd.image_resources import AlphaIdentifiers, ImageResource
+    cmode = {"L": ColorMode.GRAYSCALE, "RGB": ColorMode.RGB, "CMYK": ColorMode.CMYK}[mode]
+    n = NCOLOR[cmode.name]
+    W, H = size
+    header = FileHeader(version=1, width=W, height=H, depth=depth, channels=n + extra, color_mode=cmode)
+    g = np.random.default_rng(seed)
+    planes = [quantise(g.random((H, W)), depth) for _ in range(n + extra)]
+    idata = ImageData(compression=comp)
+    idata.set_data(planes, header)
+    psd = PSDImage(PSD(header=header, image_data=idata, image_resources=ImageResources.new()))
+    if ids is not None:
+        psd.image_resources[Resource.ALPHA_IDENTIFIERS] = ImageResource(key=Resource.ALPHA_IDENTIFIERS, data=AlphaIdentifiers(list(ids)))
+    im = pc.make_image("RGBA", max(1, W - 1), max(1, H - 1), seed % 100000)
+    psd.append(PixelLayer.frompil(im, psd, "base", 0, 0))
+    p, raw = pc.save_reopen(psd)
+    if mtrn:
+        p, raw = restage(p, "merged-transparency-tag", depth)
+    return p, raw
+
+
+def channel_layouts():
+    """(extra, ids): 0-3 extra planes x every place of the transparency in ALPHA_IDENTIFIERS (first / middle / last / unlisted) and no resource"""
+    out = []
+    for extra in range(4):
+        out.append((extra, None))
+        if extra:
+            other = [7, 9, 12]
+            for pos in range(extra):
+                out.append((extra, [0 if q == pos else other[q] for q in range(extra)]))
+            out.append((extra, other[:extra]))
+    return out
 
 
 class Probe:
@@ -932,6 +1078,14 @@ def run(ctx: core.Run):
         for mode in DOC_MODES:
             for op in STRUCT_OPS:
                 api_cases.append((mode, 8, rng.choice(comps), (5, 4), ["append", op], "plain"))
+    # histories through clip-relevant intermediate states, whatever the seed draws (top level and nested; saved and never-saved documents)
+    for k, mode in enumerate(DOC_MODES):
+        for q, ops in enumerate(CLIP_HISTORIES):
+            if quick and (k + q) % 2 and mode not in ("RGB", "RGBA"):
+                continue
+            api_cases.append((mode, [8, 16, 32][(k + q) % 3] if mode not in ("RGB", "RGBA") else 8, comps[(k + q) % 4], (5, 4), list(ops), "plain"))
+        for ops in CLIP_HISTORIES_UNSAVED:
+            api_cases.append((mode, 8, comps[k % 4], (5, 4), list(ops), "unsaved"))
     for (mode, depth, comp, size, ops, store) in api_cases:
         case = {"kind": "api", "mode": mode, "depth": depth, "compression": int(comp), "size": list(size), "ops": ops,
                 "op_seed": rng.randrange(1 << 30)}
@@ -957,6 +1111,36 @@ def run(ctx: core.Run):
             shrink_failures(ctx, nf, lambda a=(mode, depth, comp, size, case["op_seed"], store): make_api_doc(*a)[0], case, section, shrink_st)
         note(f"api {mode}/{depth}" + ("" if store == "plain" else f" [{store}]"), res)
     ctx.sample({"api_case": {k: v for k, v in case.items()}})
+
+    # ---------------- channel layouts: 0-3 extra planes x every order of ALPHA_IDENTIFIERS x merged-transparency block
+    nlay = 0
+    for mode in ("L", "RGB", "CMYK"):
+        for (extra, ids) in channel_layouts():
+            for mtrn in (False, True):
+                if mtrn and not extra:
+                    continue        # (a merged-transparency block without any plane beyond the colour planes is not a layout writers produce)
+                nlay += 1
+                for depth in ([(8, 16, 32)[nlay % 3]] if quick else [8, 16, 32]):
+                    hists = [rng.choice([["append"], ["insert", "setOpacity"], ["rotate"], ["appendClip"], ["append", SAVE, "setVisible"]])]
+                    if nlay % 3 == 0 or not quick:
+                        hists.append([rng.choice(QUIET_OPS[:-1]) for _ in range(2)])
+                    for ops in hists:
+                        comp = comps[(nlay + len(ops)) % 4]
+                        case = {"kind": "channels", "mode": mode, "depth": depth, "compression": int(comp), "size": [5, 4], "extra": extra,
+                                "ids": ids, "mtrn": mtrn, "ops": ops, "op_seed": rng.randrange(1 << 30)}
+                        mk = lambda c=case: make_channel_doc(c["mode"], c["depth"], Compression(c["compression"]), c["size"], c["extra"],
+                                                             c["ids"], c["mtrn"], c["op_seed"])
+                        ctx.count(("channels", mode, depth, extra, tuple(ids or ()), mtrn, tuple(ops)))
+                        r0 = _call(mk)
+                        if r0[0] == "err":
+                            ctx.skipped.append(f"channel layout {mode}/{extra}/{ids}/{mtrn}: cannot build the document ({r0[1]}: {r0[2][:60]})")
+                            continue
+                        section = image_data_section(r0[1][1])[1:]
+                        nf = len(ctx.failures)
+                        res = run_case(ctx, f"channels {mode}/{depth}", lambda r0=r0: r0[1][0], ops, case, original_section=section)
+                        if len(ctx.failures) > nf:
+                            shrink_failures(ctx, nf, lambda mk=mk: mk()[0], case, section, shrink_st)
+                        note(f"channels {mode}/+{extra}" + (" [merged-transparency-tag]" if mtrn else ""), res)
 
     # ---------------- documents read from files
     fdir = core.REPO / "tests" / "psd_files"
@@ -986,6 +1170,9 @@ def run(ctx: core.Run):
         if not quick:
             hist += [[rng.choice(STRUCT_OPS)], [rng.choice(STRUCT_OPS), rng.choice(QUIET_OPS)], [rng.choice(QUIET_OPS)] * 2,
                      ["readSave"] + [rng.choice(QUIET_OPS)], two_save_history(rng), two_save_history(rng, "edit-save-attr")]
+        if any(l.clipping_layer for l in _walk(PSDImage.open(f))):
+            # fixtures with clipping layers: the run loses its base / the clipping layer its place, and gets it back
+            hist += [["baseUpDown"], ["clipDownUp"]]
         if f in special:
             # whatever the seed draws: an appended translucent layer and a reordering on these documents
             hist += [["append"], ["insert", "setOpacity"]]
@@ -1038,6 +1225,14 @@ def run(ctx: core.Run):
         "with VersionInfo.has_composite = false, each x every mode x depth with a structural edit and a quiet history; documents of the "
         "test corpus with the same kinds of history, among them (searched recursively, classified from the record: "
         "histograms.fixture_storage_class) those stored without a merged image and those whose merged transparency survives an edit. "
+        "Whatever the seed draws: histories through CLIP-RELEVANT intermediate states (CLIP_HISTORIES: a clipping layer appended over its base, "
+        "the base moved above its run and back, the base deleted and replaced, the clipping flag toggled off and on, the clipping layer sent "
+        "to the bottom of its list and back, the same inside a group, the clipping layer created before its base on a never-saved document) "
+        "on every document mode, and on every fixture that has clipping layers; CHANNEL LAYOUTS: {L, RGB, CMYK} x 0-3 planes beyond the "
+        "colour planes (random content) x ALPHA_IDENTIFIERS {absent, transparency first / middle / last / only / unlisted} x merged-"
+        "transparency block {absent, present} x depth, a structural edit (and quiet histories), where EVERY plane is compared with its "
+        "source: the transparency plane (the one the identifiers mark with 0, else the last) with the alpha of the composite of the "
+        "REOPENED layers, every other extra plane byte for byte with what it was. "
         "Failing histories are shrunk (ddmin over the operations, same signature). "
         "Generated documents (harness/merged_pixels.py): recipes of the compositing checks (1-6 layers, groups, raster masks with "
         "density, clip runs, opacity / fill, knockout, hidden layers, layers straddling / beyond / outside the canvas, twelve continuous "
@@ -1060,6 +1255,10 @@ def run(ctx: core.Run):
     }
     ctx.extra["results"] = results
     ctx.notes += [
+        "the composite the stored merged image is compared with is that of the REOPENED file (a fresh object without history: "
+        "check_save's c2 / p2), and the in-memory render captured during save() is compared with it too (signature "
+        "C17/merged-vs-composite/stale-render-state/...): derived render state that survives a history (a clipping layer that was "
+        "base-less at some point) shows as a difference between the two.",
         "merged_equals_composite: theorem (Props/C17Pixels.lean) + pixel correspondence (extra.pixel_correspondence) + two oracles on the "
         "real code: reopened numpy()/topil() against composite(force=True) of the reopened layers (histories on API documents and "
         "fixtures, 1-2 LSB), and the stored samples of generated documents against a float64 implementation of the published model "
@@ -1102,6 +1301,13 @@ def replay(ctx, data):
             print("building the document raises", r0[1:])
             return 0
         print("result:", run_case(ctx, "replay", lambda: r0[1], inp["ops"], inp, original_section=sec[0]))
+    elif inp.get("kind") == "channels":
+        r0 = _call(lambda: make_channel_doc(inp["mode"], inp["depth"], Compression(inp["compression"]), inp["size"], inp["extra"], inp["ids"],
+                                            inp["mtrn"], inp["op_seed"]))
+        if r0[0] == "err":
+            print("building the document raises", r0[1:])
+            return 0
+        print("result:", run_case(ctx, "replay", lambda: r0[1][0], inp["ops"], inp, original_section=image_data_section(r0[1][1])[1:]))
     elif inp.get("kind") == "fixture":
         f = core.REPO / "tests" / "psd_files" / inp["fixture"]
         sec = image_data_section(f.read_bytes())[1:]
